@@ -35,4 +35,9 @@ PLAN = {
         unit("cfgh", "TestC16", 250, 6000, replay="TestReplayC16", shrinktime="30s"),
         unit("cfgh", "TestC16Process", 40, 300, seed_off=700, workers={"quick": 1, "thorough": 4})]},
     "C17": {"level": "exploration", "units": [unit("disc", "TestC17", 400, 8000, replay="TestReplayC17", race=True, shrinktime="30s")]},
+    "C18": {"level": "exploration", "units": [
+        unit("k8s", "TestC18Grid", 1, 1, replay="TestReplayC18", rapid=False, workers={"quick": 1, "thorough": 1}),
+        unit("k8s", "TestC18List", 500, 5000, seed_off=300)]},
+    "C19": {"level": "exploration", "units": [unit("cyc", "TestC19", 1500, 15000, replay="TestReplayC19")]},
+    "C20": {"level": "exploration", "units": [unit("expl", "TestC20", 40, 600, replay="TestReplayC20", shrinktime="30s")]},
 }
